@@ -345,6 +345,7 @@ func judge(sc *scenario, res *result) *verdict {
 			}
 		}
 	}
+	inflightLabels(sc, res, views, v)
 	if len(res.unfinished) > 0 {
 		v.fail("handler of request(s) %v still running five virtual minutes after the last arrival", res.unfinished)
 	}
@@ -358,4 +359,86 @@ func indexOf(w *world, r *reqRun) int {
 		}
 	}
 	return -1
+}
+
+// inflightLabels records — as coverage only, it gives no verdict — how often a request
+// of a peer was turned away while another request of the same peer was being served,
+// and what came after. With b the rejected request, a the one in service, stage =
+// "dial-data-window" (b had been admitted and read, and held one of the peer's
+// concurrency slots when it was rejected) or "before-reading" (windows / concurrency
+// limit):
+//
+//	inflight-rejection:<stage>                 a was launched before b (strictly earlier in virtual time, or
+//	                                           earlier in a burst that was allowed to settle) and was still
+//	                                           being served when b's handler returned
+//	inflight-rejection:<stage>+followers       ... and more requests of the peer arrived after b had been
+//	                                           completed while a was still being served
+//	inflight-rejection:<stage>+limit-reached   ... and at a quiescence point at which a and at least one
+//	                                           admitted follower were in service, the peer had as many
+//	                                           requests in service as the concurrency limit allows
+//	inflight-rejection:<stage>+limit-binding   ... and a further follower that arrived while a was still in
+//	                                           service was turned away before its request was read
+func inflightLabels(sc *scenario, res *result, views []*reqView, v *verdict) {
+	w := res.w
+	admitted := func(i int) bool {
+		r := w.reqs[i]
+		return r.launched >= 0 && !views[i].rejected && (!r.aborted || r.srvEnd.BytesRead.Load() > 0 || len(views[i].msgs) > 0)
+	}
+	for i, b := range w.reqs {
+		if b.launched < 0 || !views[i].rejected || !b.handlerDone {
+			continue
+		}
+		stage := "before-reading"
+		if b.srvEnd.BytesRead.Load() > 0 {
+			stage = "dial-data-window"
+		}
+		for j, a := range w.reqs {
+			if j == i || a.spec.Peer != b.spec.Peer || !admitted(j) {
+				continue
+			}
+			before := a.launched < b.launched || (a.launched == b.launched && j < i && b.spec.Settle)
+			if !before || (a.handlerDone && a.doneAt <= b.doneAt) {
+				continue
+			}
+			inService := func(at time.Duration) bool { return !a.handlerDone || at < a.doneAt }
+			base := "inflight-rejection:" + stage
+			v.labels[base] = true
+			follower := func(k int) bool {
+				c := w.reqs[k]
+				if k == i || k == j || c.spec.Peer != b.spec.Peer || c.launched < 0 || !inService(c.launched) {
+					return false
+				}
+				return c.launched > b.doneAt || (c.launched == b.doneAt && k > i && c.spec.Settle)
+			}
+			turnedAway := false
+			for k := range w.reqs {
+				if follower(k) {
+					v.labels[base+"+followers"] = true
+					if views[k].rejected && w.reqs[k].srvEnd.BytesRead.Load() == 0 {
+						turnedAway = true
+					}
+				}
+			}
+			for _, s := range res.samples {
+				if s.At < b.doneAt {
+					continue
+				}
+				cnt, hasA, hasB, hasFollower := 0, false, false, false
+				for _, k := range s.Open {
+					hasA = hasA || k == j
+					hasB = hasB || k == i
+					if w.reqs[k].spec.Peer == b.spec.Peer && !views[k].rejected {
+						cnt++
+						hasFollower = hasFollower || (follower(k) && admitted(k))
+					}
+				}
+				if hasA && !hasB && hasFollower && cnt >= sc.Limits.MaxConc {
+					v.labels[base+"+limit-reached"] = true
+					if turnedAway {
+						v.labels[base+"+limit-binding"] = true
+					}
+				}
+			}
+		}
+	}
 }
